@@ -472,6 +472,12 @@ pub fn run_c12(ctx: &Ctx) -> i32 {
 // ---------------------------------------------------------------------------------------------
 
 fn c13_case(seed: u64, trace: bool) -> CaseOut {
+    c13_case_with(seed, trace, false)
+}
+
+/// `padded`: some peers pad every datagram to the MTU estimate. Only the per-datagram size rules
+/// are judged then (loss probes included); whether such worlds complete is C02's known finding.
+fn c13_case_with(seed: u64, trace: bool, padded: bool) -> CaseOut {
     let mut k = Knobs::default();
     k.max_stream_len = 60_000;
     k.fault_window_ns = Some(10_000_000_000);
@@ -482,7 +488,7 @@ fn c13_case(seed: u64, trace: bool) -> CaseOut {
         t.initial_mtu = *r.pick(&[1200, 1200, 1280, 1400, 1452]);
         t.min_mtu = *r.pick(&[1200, 1200, 1250]).min(&t.initial_mtu);
         t.mtud = if r.chance(75) { Some((*r.pick(&[1300, 1452, 1472, 4000, 9000]), *r.pick(&[1, 5, 600]), *r.pick(&[1, 60]), *r.pick(&[1, 20, 100]))) } else { None };
-        t.pad_to_mtu = false;
+        t.pad_to_mtu = padded && r.chance(70);
         t.gso = r.chance(80);
     }
     h.drv.max_datagrams = *r.pick(&[1, 2, 5, 10]);
@@ -525,7 +531,7 @@ fn c13_case(seed: u64, trace: bool) -> CaseOut {
     let mut ran = run_honest(&h, trace, 40_000, 1_800_000_000_000);
     // nothing stays queued for good: once the world has calmed down the outgoing DATAGRAM queues of
     // the surviving connections are empty
-    if !any_lost(&ran.w) && matches!(ran.end, RunEnd::Done) {
+    if !any_lost(&ran.w) && matches!(ran.end, RunEnd::Done) && !padded {
         let until = ran.w.now + 120_000_000_000;
         let _ = ran.w.run(20_000, until, |_| false);
         if !any_lost(&ran.w) {
@@ -541,7 +547,7 @@ fn c13_case(seed: u64, trace: bool) -> CaseOut {
         }
     }
     // fallback + keeps delivering: under the C02 rule the workload must complete
-    if !any_lost(&ran.w) {
+    if !any_lost(&ran.w) && !padded {
         match ran.end {
             RunEnd::Quiescent => {
                 let cur = ran.w.netcfg.mtu;
@@ -584,6 +590,15 @@ pub fn run_c13(ctx: &Ctx) -> i32 {
     let mut rep = Report::default();
     let g = Group { name: "mtu", cases: ctx.tier.pick(1000, 60_000), budget_s: ctx.tier.pick(45.0, 720.0), exhaustive: false };
     run_group(ctx, &mut rep, &g, |_, seed, trace| c13_case(seed, trace));
+    // pad_to_mtu: the size rules (probe timeouts fire with datagrams of at most 1200 bytes, nothing
+    // above the estimate) with every datagram padded
+    let g = Group { name: "padded", cases: ctx.tier.pick(500, 30_000), budget_s: ctx.tier.pick(15.0, 200.0), exhaustive: false };
+    run_group(ctx, &mut rep, &g, |_, seed, trace| {
+        let mut out = c13_case_with(seed, trace, true);
+        // (honest-rule reports about connections that starve are the C02 finding, not sizes)
+        out.viol.retain(|v| v.prop != "C13" || !v.msg.contains("honest peers"));
+        out
+    });
     // closing packets: CONNECTION_CLOSE / APPLICATION_CLOSE with error codes of every varint size
     // and reasons up to several packets long, sent in every packet space (the C08 scenarios; only
     // the size monitor's verdicts count here)
@@ -595,7 +610,7 @@ pub fn run_c13(ctx: &Ctx) -> i32 {
         Finish {
             level: "exploration",
             rule: "seeded worlds with initial_mtu / min_mtu / discovery (upper bound, interval, cooldown, minimum change) configurations, peer max_udp_payload_size 1472, GSO batch 1..10, path MTU 1200..9000 that drops (black hole) or rises at random instants, coalesced handshake flights, DATAGRAM frames, loss/reorder faults, rebinding. Per transmit: every datagram <= current_mtu() read before the call (all but the last exactly segment_size) unless the call sent the MTU probe (sent_plpmtud_probes delta), which must be a single datagram <= min(upper bound, peer limit); client Initial datagrams and PATH_CHALLENGE/RESPONSE datagrams >= 1200; if loss_probes fell by d at least d datagrams <= 1200. Estimate history: rises only to the size of an earlier probe the simulated path did not drop, never below min(min_mtu, peer limit). Black hole: the workload still completes (bounded progress). (closing) connections closed by either side after every prefix of an exchange with application error codes of 1/2/4/8 encoded bytes and reasons of 0..5000 bytes: the same per-datagram size rules.".into(),
-            assumptions: vec!["pad_to_mtu is excluded here (see the C02 known finding); probe acknowledgement itself is not observed, only that a probe of that size was sent and not dropped by the path".into()],
+            assumptions: vec!["with pad_to_mtu (group `padded`) only the size rules are judged, not completion (see the C02 known finding); probe acknowledgement itself is not observed, only that a probe of that size was sent and not dropped by the path".into()],
             min_evals: ctx.tier.pick(150, 5000),
             min_nontrivial: ctx.tier.pick(100, 2000),
             required: vec!["c13.transmits_checked", "c13.mtu_probes", "c13.mtu_rises", "c13.loss_probes_sent", "c13.client_initial_dgrams", "c13.black_holes_detected", "net.mtu_drop"],
